@@ -110,9 +110,16 @@ type c18Call struct {
 	returnSeq atomic.Int64 // logical time when it returned / its callback ran
 }
 
+// doCancel may run before issue (in the call's own goroutine) has created the context: the cancellation is then
+// remembered and carried out by issue itself.
 func (c *c18Call) doCancel() {
+	c.mu.Lock()
 	c.canceled.Store(true)
-	c.cancelFn()
+	fn := c.cancelFn
+	c.mu.Unlock()
+	if fn != nil {
+		fn()
+	}
 }
 
 func (c *c18Call) describe() map[string]any {
@@ -588,7 +595,13 @@ func (run *c18Run) issue(c *c18Call) {
 	} else {
 		ctx, cancel = context.WithCancel(context.Background())
 	}
+	c.mu.Lock()
 	c.cancelFn = cancel
+	early := c.canceled.Load()
+	c.mu.Unlock()
+	if early {
+		cancel()
+	}
 	req := c.request()
 	c.start = time.Now()
 	run.mu.Lock()
